@@ -217,11 +217,12 @@ def _list_items(its):
     return [it for it in its if it[0] == 'list']
 
 
-def gen_file(rng, size):
-    """One whole-file scenario (see module docstring).  size: 0 small .. 2 large."""
+def gen_file(rng, size, indexed=False):
+    """One whole-file scenario (see module docstring).  size: 0 small .. 2 large.
+    indexed: favour v5 sections with non-empty offset tables referenced through DW_FORM_loclistx/rnglistx."""
     le = rng.random() < 0.5
     asz = rng.choice([4, 8])
-    has4 = rng.random() < 0.55
+    has4 = rng.random() < (0.3 if indexed else 0.55)
     has5 = (not has4) or rng.random() < 0.5
     nl = [1, 3, 5][size]
     sc = {'le': le, 'asz': asz}
@@ -248,7 +249,10 @@ def gen_file(rng, size):
                 contiguous = contiguous_ok and rng.random() < 0.6
                 its = _items(rng, lambda: gen_list(ntbl), views_ok and not contiguous, rng.randint(0, nl), gaps=not contiguous)
                 nlist = len(_list_items(its))
-                cnt = rng.choice([0, 0, 1, nlist, nlist + 2, rng.randint(0, 6)]) if nlist else 0
+                if indexed:
+                    cnt = rng.choice([nlist, nlist, nlist + 2, rng.randint(1, 6)]) if nlist else 0
+                else:
+                    cnt = rng.choice([0, 0, 1, nlist, nlist + 2, rng.randint(0, 6)]) if nlist else 0
                 index = [rng.randrange(nlist) for _ in range(cnt)]
                 us.append([rng.random() < 0.3, 5, asz, 0, index, its, ti])
             return us
@@ -260,6 +264,7 @@ def gen_file(rng, size):
         sc['tables'] = []
         sc['loc5'] = sc['rng5'] = None
     # ---- units of .debug_info
+    p_base, p_x = (0.95, 0.85) if indexed else (0.8, 0.6)
     cus = []
     for _ in range(rng.randint(1, [2, 3, 4][size])):
         if has4 and has5:
@@ -278,12 +283,12 @@ def gen_file(rng, size):
             top.append(['base', 'DW_AT_addr_base', ti])
             if sc['loc5']:
                 cands = [i for i, u in enumerate(sc['loc5']) if u[0] == is64 and u[6] == ti]
-                if cands and rng.random() < 0.8:
+                if cands and rng.random() < p_base:
                     lu = rng.choice(cands)
                     top.append(['base', 'DW_AT_loclists_base', lu])
             if sc['rng5']:
                 cands = [i for i, u in enumerate(sc['rng5']) if u[0] == is64 and u[6] == ti]
-                if cands and rng.random() < 0.8:
+                if cands and rng.random() < p_base:
                     ru = rng.choice(cands)
                     top.append(['base', 'DW_AT_rnglists_base', ru])
 
@@ -300,7 +305,7 @@ def gen_file(rng, size):
                 li = rng.randrange(len(_list_items(u[5])))
                 form = 'DW_FORM_sec_offset'
                 k = None
-                if ui == lu and li in u[4] and rng.random() < 0.6:
+                if ui == lu and li in u[4] and rng.random() < p_x:
                     form = 'DW_FORM_loclistx'
                     k = rng.choice([j for j, x in enumerate(u[4]) if x == li])
                 has_views = bool(_list_items(u[5])[li][1])
@@ -323,7 +328,7 @@ def gen_file(rng, size):
                 li = rng.randrange(len(_list_items(u[5])))
                 form = 'DW_FORM_sec_offset'
                 k = None
-                if ui == ru and li in u[4] and rng.random() < 0.6:
+                if ui == ru and li in u[4] and rng.random() < p_x:
                     form = 'DW_FORM_rnglistx'
                     k = rng.choice([j for j, x in enumerate(u[4]) if x == li])
                 return ['rng5', form, ui, li, k]
@@ -491,7 +496,7 @@ def gen(ctx):
     # ---- sessions: call orders on one fresh DWARFInfo (after everything else: the cases above keep their seeds)
     for size, n in ((0, 60 * T), (1, 110 * T), (2, 50 * T)):
         for _ in range(n):
-            a = gen_file(rng, size)[1]
+            a = gen_file(rng, size, indexed=rng.random() < 0.6)[1]
             cases.append(('session', [a, gen_script(rng, a)]))
     # ---- classification: every name x version, all forms in one case
     for v in (2, 3, 4, 5):
